@@ -38,7 +38,7 @@ func checkC07(c *Ctx) {
 		"declaration a DuplicateValue call lies on every cycle through the Declare call (one copy per name); (C07.dup) inside DuplicateValue no Element, slice or map loaded from the source list/dictionary " +
 		"(its value / keyOrder fields) reaches the result except through a recursive DuplicateValue call (taint flow with DuplicateValue as the only cleanser), for lists and dictionaries alike; objects, methods, types and 空 are returned by identity; " +
 		"(C07.obj) NewObject passes every class default through DuplicateValue; (C07.fresh) literal evaluation returns fresh allocations; (C07.store) no caller of Array.GetValue()/HashMap.GetValue()/GetKeyOrder() writes through the returned backing store. " +
-		"NOT decided: aliasing through method results used inside one expression chain, parameter and loop-variable passing (by reference in this implementation; the statement speaks of declaring and assigning)."
+		"(C07.ctor) NewNumber / NewString / NewArray / NewHashMap / NewEmptyHashMap / NewObject return a value allocated by that very call; (C07.adopt) no store of Array.value / HashMap.value / HashMap.keyOrder stores another object's backing store. NOT decided: aliasing through method results used inside one expression chain, parameter and loop-variable passing (by reference in this implementation; the statement speaks of declaring and assigning)."
 	R.Assumptions = []string{"value.NewArray/NewHashMap/NewString/NewNumber/NewBool allocate new objects", "String, Number, Bool are immutable apart from the mutators inventoried in C16"}
 	u := c.Core()
 	u.buildSSA()
@@ -239,28 +239,23 @@ func ruleFreshLiteralsAndStores(c *Ctx, u *Universe) {
 	if f := u.ssaFunc("pkg/exec", "evalPrimeExpr"); f != nil {
 		okAll, n := true, 0
 		fresh := map[string]bool{"pkg/value.NewString": true, "pkg/value.NewNumber": true, "pkg/value.NewArray": true, "pkg/value.NewHashMap": true, "pkg/runtime.VM.FindElement": true}
-		for _, b := range f.Blocks {
-			ret, ok := b.Instrs[len(b.Instrs)-1].(*ssa.Return)
-			if !ok {
+		// the literal cases may be evaluated by helpers of their own (evalArrayExpr, …): look through them
+		for _, s := range returnSourcesIP(u, f, 0, 2, func(name string) bool { return fresh[name] }) {
+			if isNilConst(s) {
 				continue
 			}
-			for _, s := range allSources(retValue(ret, 0)) {
-				if isNilConst(s) {
-					continue
+			n++
+			name := ""
+			switch x := s.(type) {
+			case *ssa.Call:
+				name = u.callName(x)
+			case *ssa.Extract:
+				if cv, ok := x.Tuple.(*ssa.Call); ok {
+					name = u.callName(cv)
 				}
-				n++
-				name := ""
-				switch x := s.(type) {
-				case *ssa.Call:
-					name = u.callName(x)
-				case *ssa.Extract:
-					if cv, ok := x.Tuple.(*ssa.Call); ok {
-						name = u.callName(cv)
-					}
-				}
-				if !fresh[name] {
-					okAll = false
-				}
+			}
+			if !fresh[name] {
+				okAll = false
 			}
 		}
 		R.check(okAll && n >= 4, "C07.fresh", "pkg/exec.evalPrimeExpr", u.pos(f.Pos()), "literals evaluate to freshly allocated values (or a variable lookup)", "a literal can evaluate to a cached / shared value")
